@@ -502,7 +502,17 @@ static void GC_New(var self, var args) {
 
 static void GC_Del(var self) {
   struct GC* gc = self;
-  GC_Sweep(gc);
+  
+  /* Finalisers may allocate: sweep until nothing collectable is left */
+  while (true) {
+    size_t garbage = 0;
+    for (size_t i = 0; i < gc->nslots; i++) {
+      if (gc->entries[i].hash isnt 0 and not gc->entries[i].root) { garbage++; }
+    }
+    if (garbage is 0) { break; }
+    GC_Sweep(gc);
+  }
+  
   free(gc->entries);
   free(gc->freelist);
   rem(current(Thread), $S(GC_TLS_KEY));
@@ -516,7 +526,9 @@ static void GC_Set(var self, var key, var val) {
   gc->minptr = (uintptr_t)key < gc->minptr ? (uintptr_t)key : gc->minptr;
   GC_Resize_More(gc);
   GC_Set_Ptr(gc, key, (bool)c_int(val));
-  if (gc->nitems > gc->mitems) {
+  /* Not from a finaliser that allocates while a sweep is going through its
+  ** list of objects to free: a second sweep would take that list over */
+  if (gc->nitems > gc->mitems and gc->freelist is NULL) {
     GC_Mark(gc);
     GC_Sweep(gc);
   }
